@@ -259,18 +259,25 @@ def other_navigators(ck: Check, n: int) -> None:
 
     rng = ck.rng
     for _ in range(n):
+        # leaves may carry the "conversion" keyword (as COBOL-derived and hand-written schemas do): a part of the value is still
+        # the value of the part -- same object, same type
+        conv = (lambda: {"conversion": "decimal"}) if rng.random() < 0.5 else (lambda: {})
         doc = {"type": "object", "properties": {
-            "a": {"type": "string"}, "b": {"type": "array", "items": {"type": "object", "properties": {"c": {"type": "integer"}, "d": {"type": "string"}}}},
+            "a": {"type": "string", **conv()},
+            "b": {"type": "array", "items": {"type": "object", "properties": {"c": {"type": "integer"}, "d": {"type": "string", **conv()}}}},
             "e": {"type": "object", "properties": {"f": {"type": "number"}}}}}
-        inst = {"a": "x" * rng.randint(0, 4), "b": [{"c": rng.randint(0, 9), "d": "q"} for _ in range(rng.randint(0, 3))], "e": {"f": 1.5}}
+        inst = {"a": f"{rng.randint(0, 99)}.{rng.randint(0, 99):02d}", "b": [{"c": rng.randint(0, 9), "d": f"0.{rng.randint(10, 99)}"} for _ in range(rng.randint(0, 3))],
+                "e": {"f": 1.5}}
         schema = SchemaMaker.from_json(doc)
         dunp = Delimited()   # the navigators keep only a weak reference to their unpacker
         nav = dunp.nav(schema, inst)  # type: ignore[arg-type]
         ck.oracle_evaluations += 1
         ck.case(("dnav", str(inst)), feature="DNav")
-        ok = nav.name("a").value() == nav.value()["a"] and nav.name("e").name("f").value() == nav.value()["e"]["f"]
+        same = lambda x, y: type(x) is type(y) and x == y  # noqa: E731
+        ok = same(nav.name("a").value(), nav.value()["a"]) and same(nav.name("e").name("f").value(), nav.value()["e"]["f"])
         for i in range(len(inst["b"])):
-            ok = ok and nav.name("b").index(i).value() == nav.value()["b"][i] and nav.name("b").index(i).name("c").value() == inst["b"][i]["c"]
+            ok = (ok and same(nav.name("b").index(i).value(), nav.value()["b"][i]) and nav.name("b").index(i).name("c").value() == inst["b"][i]["c"]
+                  and same(nav.name("b").index(i).name("d").value(), nav.value()["b"][i]["d"]))
         try:
             nav.name("b").index(len(inst["b"]))
             ok = False
